@@ -218,6 +218,16 @@ func runC19(c *Ctx) {
 				return false
 			}
 			rg := nx.Iter.(*ssa.Range)
+			// every key is taken: no iteration goes round without the append (a filter would hide registrations from
+			// the comparison, and with them the superfluous ones)
+			exhausted := func(cond ssa.Value, branch bool) bool {
+				cv, b := stripNot(cond, branch)
+				e0, isE := cv.(*ssa.Extract)
+				return isE && e0.Tuple == ssa.Value(nx) && e0.Index == 0 && !b
+			}
+			if nx.Parent() == ap.Parent() && pathExists(ap.Parent(), nx, nx, exhausted, isOneOf(ap)) {
+				return false
+			}
 			if viaSprintf {
 				// inner range over the value of the outer range over d.operations
 				ok = true
